@@ -69,12 +69,13 @@ async def scenario(loop, sc):
     conn = Connection(broker)
     await conn.connect()
     done = []
-    w = Worker(graceful_shutdown_time=0.2, handle_signals=[], run_health_check_server=True,
+    grace = sc.get("grace_s", 0.2)
+    w = Worker(graceful_shutdown_time=grace, run_health_check_server=True,
                health_check_server_settings=HealthCheckServerSettings(address=sc.get("address", "0.0.0.0"), port=sc.get("port", 8080), endpoint_name=ep),
                router_defaults=RouterDefaults(converter=BasicConverter), _connection=conn)
 
     async def ja(n: int):
-        await asyncio.sleep(0.05)
+        await asyncio.sleep(sc.get("ja_ms", 50) / 1000)
         done.append(n)
 
     async def jb(n: int):
@@ -157,9 +158,7 @@ async def scenario(loop, sc):
             kind = step["do"]
             if kind == "open":
                 cno += 1
-                p = srv.factory()
-                t = FakeTransport()
-                p.connection_made(t)
+                p, t = srv.connect()
                 ev.append({"e": "conn", "c": cno})
                 pending.append((cno, p, t))
                 continue
@@ -169,9 +168,7 @@ async def scenario(loop, sc):
                 else:
                     cno += 1
                     c = cno
-                    p = srv.factory()
-                    t = FakeTransport()
-                    p.connection_made(t)
+                    p, t = srv.connect()
                     ev.append({"e": "conn", "c": c})
                 chunks = step["chunks"]
                 cls = step["cls"]
@@ -186,16 +183,51 @@ async def scenario(loop, sc):
                 ev.append({"e": "recv", "c": c, "cls": cls, "code": code, "wellformed": well, "serving": serving()})
         if fail_at is not None and not failed_logged and "step" in failed:
             ev.append({"e": "fail"})
-        await asyncio.sleep(0.3)
+        await asyncio.sleep(sc.get("before_stop_ms", 300) / 1000)
         ev.append({"e": "probe", "serving": serving()})
+
+        def ask_to_stop():
+            # a signal, handled by the handler the worker registered itself (or, without one, the runner's own entry point)
+            if not loop.deliver_signal():
+                runners[0].sync_stop_wait_and_cancel(grace)
         if not run_task.done():
-            runners[0].sync_stop_wait_and_cancel(0.2)
+            ask_to_stop()
         raised = False
         try:
-            await asyncio.wait_for(run_task, 30)
-        except asyncio.TimeoutError:
+            # the port is open exactly while the worker runs: probes (listening state, and a request now and then) until run() ends
+            for n in range(4000):
+                if run_task.done():
+                    break
+                await asyncio.sleep(sc.get("probe_ms", 20) / 1000)
+                if run_task.done():
+                    break
+                if not serving():
+                    # closing the port is the last thing run() does: it has ended before any time passes (a probe that falls
+                    # into those few loop steps has seen the end of the run, not a closed port of a running worker)
+                    for _ in range(40):
+                        if run_task.done():
+                            break
+                        await asyncio.sleep(0)
+                    if run_task.done():
+                        break
+                ev.append({"e": "probe", "serving": serving()})
+                if sc.get("requests_while_stopping") and n % 3 == 0 and serving():
+                    cno += 1
+                    p, t = srv.connect()
+                    ev.append({"e": "conn", "c": cno})
+                    try:
+                        p.data_received(gen_bytes("get_ep", ep, rng))
+                    except BaseException:
+                        t.close()
+                    code, well = parse_response(t.written)
+                    ev.append({"e": "recv", "c": cno, "cls": "get_ep", "code": code, "wellformed": well, "serving": serving()})
+            await asyncio.wait({run_task}, timeout=30)
+            if not run_task.done():
+                raise RuntimeError("c20: Worker.run() did not end within 30 s of the stop request")
+            run_task.result()
+        except RuntimeError:
             raise
-        except Exception:  # noqa: BLE001
+        except Exception:  # noqa: BLE001   (TimeoutError included: the worker's own time-outs are its business)
             raised = True
         ev.append({"e": "run_end", "serving": serving(), "raised": raised})
         for _again in range(sc.get("more_runs", 0)):          # the same Worker object is run again
@@ -207,9 +239,7 @@ async def scenario(loop, sc):
                 await asyncio.sleep(0)
             await asyncio.sleep(0.05)
             ev.append({"e": "run_start", "serving": serving()})
-            p = loop.fake_servers[-1].factory()
-            t = FakeTransport()
-            p.connection_made(t)
+            p, t = loop.fake_servers[-1].connect()
             cno += 1
             ev.append({"e": "conn", "c": cno})
             try:
@@ -219,10 +249,10 @@ async def scenario(loop, sc):
             code, well = parse_response(t.written)
             ev.append({"e": "recv", "c": cno, "cls": "get_ep", "code": code, "wellformed": well, "serving": serving()})
             if not run_task.done() and runners:
-                runners[0].sync_stop_wait_and_cancel(0.2)
+                ask_to_stop()
             await asyncio.wait_for(run_task, 30)
             ev.append({"e": "run_end", "serving": serving(), "raised": False})
-        expected = njobs if fail_at is None else None
+        expected = njobs if fail_at is None and not sc.get("jobs_may_be_cut") else None
         if expected is not None:
             ev.append({"e": "jobs", "done": len(done), "expected": expected})
     finally:
@@ -276,6 +306,12 @@ def make_scenarios(tier, rng):
                  {"do": "send", "cls": "get_ep", "chunks": [list(data)], "wait_ms": 10, "reuse": True},
                  {"do": "send", "cls": "get_ep", "chunks": [list(data)], "wait_ms": 10}]
         scs.append({"seed": 2, "endpoint": ep, "fail_at_ms": fail, "steps": steps})
+    # the stop arrives while jobs are running: probes and requests all through the graceful period, idle connections left open
+    for grace_s, ja_ms in ((0.2, 50), (1.0, 600), (0.5, 2000), (0.0, 300)):
+        for idle in (0, 2):
+            steps = [{"do": "open", "wait_ms": 1} for _ in range(idle)] + [{"do": "send", "cls": "get_ep", "chunks": [list(data)], "wait_ms": 5}]
+            scs.append({"seed": 5, "endpoint": ep, "fail_at_ms": None, "steps": steps, "grace_s": grace_s, "ja_ms": ja_ms, "njobs": 4,
+                        "before_stop_ms": 20, "probe_ms": 25, "requests_while_stopping": True, "jobs_may_be_cut": True})
     # the failed consumer's pause() is slow (a broker round trip): probes every few milliseconds after the failure
     for fail in (20, 45):
         for slow in (80, 400):
